@@ -201,7 +201,7 @@ def run(ctx):
                 if dc is None or len(dc[1]["args"]) != 3:
                     ctx.inst("C06.R3", construct, None, "component computed by a 3-argument call (rate, period, base)", "shape not recognised", sc.bloc(bi))
                     continue
-                cb, t = dc
+                cb, t = dc[0], dc[1]
                 pvs = [ctx.slicer.operand(sc, a, at=cb) for a in t["args"]]
                 ok_rate = pvs[0].has_field(cir, rate) and not any(pvs[0].has_field(cir, r2) for (r2, _) in base_of.values() if r2 != rate)
                 ok_time = pvs[1].params == {pn.get("time_delta", 1)}
